@@ -70,6 +70,39 @@ def calls_with(b, eb):
     return out
 
 
+def judge_nonoverlap(facts, b, only_blocks=None):
+    """every copy_nonoverlapping whose source is the handle's own pointer (both ends in one allocation) is dominated by
+    a guard distance >= n"""
+    out = []
+    eb = ExprBuilder(b, facts, inline=True)
+    for (bi, path, name, args) in calls_with(b, eb):
+        if name != "copy_nonoverlapping" or len(args) != 3:
+            continue
+        if only_blocks is not None and bi not in only_blocks:
+            continue
+        src, dst, n = strip_ptr(args[0]), strip_ptr(args[1]), args[2]
+        if self_field(src, "ptr") is None:
+            continue      # copies between distinct objects (user slice -> spare capacity) are A6's
+        ctx = Ctx(b, bi, facts)
+        dist = None
+        if is_call(dst, "sub") and strip_ptr(dst[2][0]) == src:
+            dist = dst[2][1]
+        else:
+            # dst = v.ptr, distance = offset_from(self.ptr, v.ptr)
+            for r in ctx.rels:
+                for x in walk(r[1]) if isinstance(r[1], tuple) else []:
+                    if is_call(x, "offset_from") and strip_ptr(x[2][0]) == src and strip_ptr(x[2][1]) == dst:
+                        dist = x
+                for x in walk(r[2]) if len(r) > 2 and isinstance(r[2], tuple) else []:
+                    if is_call(x, "offset_from") and strip_ptr(x[2][0]) == src and strip_ptr(x[2][1]) == dst:
+                        dist = x
+        if dist is not None and ctx.le(n, dist):
+            out.append({"bi": bi, "j": 0, "ok": True, "text": "distance %s >= n dominates the copy" % fmt_expr(dist)[:60]})
+        else:
+            out.append({"bi": bi, "j": 0, "ok": False, "text": "copy_nonoverlapping inside one allocation without a dominating guard distance >= n (regions may overlap)"})
+    return out
+
+
 def judge_writes(facts, b, only_blocks=None):
     """verdict for every write to BytesMut.{ptr,len,cap} (and every BytesMut aggregate) in `b` (a body or an inlined view)"""
     out = []
@@ -224,34 +257,19 @@ def run(facts):
                 res.ok(key, loc, x["text"], nontrivial=True)
             else:
                 res.bad(key, loc, x["text"])
-        # d. NONOVERLAP
-        for (bi, path, name, args) in calls:
-            if name != "copy_nonoverlapping" or len(args) != 3 or b.safety != "safe":
-                continue
-            src, dst, n = strip_ptr(args[0]), strip_ptr(args[1]), args[2]
-            hsrc = self_field(src, "ptr")
-            if hsrc is None:
-                continue      # copies between distinct objects (user slice -> spare capacity) are A6's
-            n_writes += 1
-            key = "%s|copy_nonoverlapping" % b.id
-            c = cnt.get(key, 0)
-            cnt[key] = c + 1
-            if c:
-                key += "#%d" % c
-            ctx = Ctx(b, bi, facts)
-            dist = None
-            if is_call(dst, "sub") and strip_ptr(dst[2][0]) == src:
-                dist = dst[2][1]
-            else:
-                # dst = v.ptr, distance = offset_from(self.ptr, v.ptr)
-                for r in ctx.rels:
-                    for x in walk(r[1]) if isinstance(r[1], tuple) else []:
-                        if is_call(x, "offset_from") and strip_ptr(x[2][0]) == src and strip_ptr(x[2][1]) == dst:
-                            dist = x
-            if dist is not None and ctx.le(n, dist):
-                res.ok(key, b.loc(bi), "distance %s >= n dominates the copy" % fmt_expr(dist)[:60], nontrivial=True)
-            else:
-                res.bad(key, b.loc(bi), "copy_nonoverlapping inside one allocation without a dominating guard distance >= n (regions may overlap)")
+        # d. NONOVERLAP (judged like the writes: as written, then with helpers inlined / in the callers' context)
+        if b.safety == "safe" and any(name == "copy_nonoverlapping" for (_, _, name, _) in calls):
+            for x in resolve_sites(facts, b, lambda view, only: judge_nonoverlap(facts, view, only), keep_names=("offset_from", "rebuild_vec", "vptr")):
+                n_writes += 1
+                key = "%s|copy_nonoverlapping" % b.id
+                c = cnt.get(key, 0)
+                cnt[key] = c + 1
+                if c:
+                    key += "#%d" % c
+                if x["ok"]:
+                    res.ok(key, b.loc(x["bi"]), x["text"], nontrivial=True)
+                else:
+                    res.bad(key, b.loc(x["bi"]), x["text"])
     res.floor("field_writes", n_writes, 18)
     reclaim_contract(res, facts)
     reserve_promise(res, facts)
